@@ -4,6 +4,7 @@ import (
 	"fmt"
 	"net/http"
 	"strconv"
+	"strings"
 
 	"github.com/zitadel/logging"
 
@@ -360,7 +361,7 @@ func checkCertificate(
 		for _, keyDesc := range metadata.SPSSODescriptor.KeyDescriptor {
 			for _, spX509Data := range keyDesc.KeyInfo.X509Data {
 				for _, reqX509Data := range request.KeyInfo.X509Data {
-					if spX509Data.X509Certificate == reqX509Data.X509Certificate {
+					if sameCertificateText(spX509Data.X509Certificate, reqX509Data.X509Certificate) {
 						return nil
 					}
 				}
@@ -369,6 +370,12 @@ func checkCertificate(
 
 		return fmt.Errorf("unknown certificate used to sign request")
 	}
+}
+
+// sameCertificateText compares two base64 certificate texts ignoring white space: the text of an X509Certificate
+// element may be wrapped into lines
+func sameCertificateText(a, b string) bool {
+	return strings.Join(strings.Fields(a), "") == strings.Join(strings.Fields(b), "")
 }
 
 func GetAcsUrlAndBindingForResponse(
